@@ -3,7 +3,6 @@ package main
 import (
 	"fmt"
 	"math/rand"
-	"sync"
 
 	"github.com/Shopify/sarama"
 	"github.com/Shopify/sarama/mocks"
@@ -28,37 +27,61 @@ type syncRet struct {
 	RetP, Off, Err int64
 	After          [][2]int64 // (Partition, Offset) of each message after the call
 	Reports        []string
+	Checks         [][2]int64
 }
 type obsSync struct {
 	Rets  []syncRet  `json:"rets"`
 	Close []string   `json:"close"`
-	NP    [][2]int64 `json:"np"`
+	NP    [][3]int64 `json:"np"`
+	Ctors []int64    `json:"ctors"`
+	Hang  bool       `json:"hang,omitempty"`
 }
 
-func runSync(s sscript) obsSync {
+func runSync(s sscript) (o obsSync) {
+	if !watchdog(func() { o = runSync1(s) }) {
+		return obsSync{Hang: true}
+	}
+	return
+}
+
+func runSync1(s sscript) obsSync {
 	rep := &reporter{}
-	var seen [][2]int64
-	var mu sync.Mutex
+	clog := newCheckLog()
+	plog := &partLog{}
 	cfg := sarama.NewConfig()
 	cfg.Producer.Return.Successes = true
-	cfg.Producer.Partitioner = func(string) sarama.Partitioner { return scriptedPartitioner{&seen, &mu} }
+	cfg.Producer.Partitioner = plog.constructor()
 	sp := mocks.NewSyncProducer(rep, cfg)
-	sp.SetDefaultPartitions(s.DefParts)
-	sp.SetPartitions(s.Overrides)
-	addExps(s.Exps, func(c mocks.MessageChecker, succ bool, err error) {
-		if succ {
-			sp.ExpectSendMessageWithMessageCheckerFunctionAndSucceed(c)
-		} else {
-			sp.ExpectSendMessageWithMessageCheckerFunctionAndFail(c, err)
-		}
-	})
+	setPartitions(sp.TopicConfig, s.DefParts, s.Overrides)
+	addExps(s.Exps, clog, expAPI{
+		msgChk: func(c mocks.MessageChecker, succ bool, err error) {
+			if succ {
+				sp.ExpectSendMessageWithMessageCheckerFunctionAndSucceed(c)
+			} else {
+				sp.ExpectSendMessageWithMessageCheckerFunctionAndFail(c, err)
+			}
+		},
+		valChk: func(c mocks.ValueChecker, succ bool, err error) {
+			if succ {
+				sp.ExpectSendMessageWithCheckerFunctionAndSucceed(c)
+			} else {
+				sp.ExpectSendMessageWithCheckerFunctionAndFail(c, err)
+			}
+		},
+		plain: func(succ bool, err error) {
+			if succ {
+				sp.ExpectSendMessageAndSucceed()
+			} else {
+				sp.ExpectSendMessageAndFail(err)
+			}
+		}})
 	var o obsSync
 	for _, c := range s.Calls {
 		var pms []*sarama.ProducerMessage
 		for _, m := range c.Msgs {
-			pms = append(pms, &sarama.ProducerMessage{Topic: topicName(m.Topic), Metadata: m, Partition: -7, Offset: -9})
+			pms = append(pms, clog.message(m))
 		}
-		before := len(rep.logs)
+		before, cbefore := len(rep.logs), len(clog.Calls)
 		var r syncRet
 		if c.Batch {
 			err := sp.SendMessages(pms)
@@ -77,6 +100,7 @@ func runSync(s sscript) obsSync {
 		for _, l := range rep.logs[before:] {
 			r.Reports = append(r.Reports, classify(l))
 		}
+		r.Checks = append(r.Checks, clog.Calls[cbefore:]...)
 		o.Rets = append(o.Rets, r)
 	}
 	before := len(rep.logs)
@@ -84,7 +108,7 @@ func runSync(s sscript) obsSync {
 	for _, l := range rep.logs[before:] {
 		o.Close = append(o.Close, classify(l))
 	}
-	o.NP = seen
+	o.NP, o.Ctors = plog.Calls, plog.Ctors
 	return o
 }
 
@@ -135,11 +159,24 @@ func genSync(r *rand.Rand) sscript {
 
 // monitor: the property read directly off the observation.
 func monitorSync(s sscript, o obsSync) *cf.Monitor {
+	topicOf := map[int64]int{}
+	for _, c := range s.Calls {
+		for _, m := range c.Msgs {
+			topicOf[m.ID] = m.Topic
+		}
+	}
+	if m := monitorPartitioner("sync", &partLog{Ctors: o.Ctors, Calls: o.NP}, topicOf, s.DefParts, s.Overrides); m != nil {
+		return m
+	}
+	if o.Hang {
+		return &cf.Monitor{Signature: "sync:hang", What: "the mock did not finish the script within 5 s"}
+	}
 	idx := 0         // expectations consumed so far
 	next := int64(1) // next offset to be handed out
 	for ci, c := range s.Calls {
 		got := o.Rets[ci]
 		wantErr, wantRep := int64(0), []string(nil)
+		var wantChk [][2]int64
 		wantAfter := make([][2]int64, len(c.Msgs))
 		for i := range wantAfter {
 			wantAfter[i] = [2]int64{-7, -9}
@@ -150,6 +187,7 @@ func monitorSync(s sscript, o obsSync) *cf.Monitor {
 				wantErr, wantRep = -1, []string{"RepNoExpectation"}
 			} else {
 				e, rp := scriptedOutcome(s.Exps[idx], m)
+				wantChk = wantCheck(s.Exps[idx], m)
 				idx++
 				wantErr = e
 				if rp != "" {
@@ -173,6 +211,7 @@ func monitorSync(s sscript, o obsSync) *cf.Monitor {
 			idx += len(c.Msgs) // all-or-nothing: the whole slice is consumed even when the loop stops early
 			for i, m := range c.Msgs {
 				e, rp := scriptedOutcome(es[i], m)
+				wantChk = append(wantChk, wantCheck(es[i], m)...)
 				if m.POk {
 					wantAfter[i][0] = m.P
 				}
@@ -189,6 +228,9 @@ func monitorSync(s sscript, o obsSync) *cf.Monitor {
 		}
 		if got.Err != wantErr {
 			return &cf.Monitor{Signature: "sync:wrong-return", What: fmt.Sprintf("call %d returned error id %d, scripted %d", ci, got.Err, wantErr)}
+		}
+		if fmt.Sprint(got.Checks) != fmt.Sprint(wantChk) {
+			return &cf.Monitor{Signature: "sync:checker-calls", What: fmt.Sprintf("call %d: checkers were called with (id, Partition) %v, want %v", ci, got.Checks, wantChk)}
 		}
 		if !strsEq(got.Reports, wantRep) {
 			return &cf.Monitor{Signature: "sync:reports", What: fmt.Sprintf("call %d reported %v, want %v", ci, got.Reports, wantRep)}
@@ -226,13 +268,13 @@ func syncCorpus() []sscript {
 
 func syncCase(s sscript) (string, cf.Sidecar) {
 	o := runSync(s)
-	var rets, calls, np []string
+	var rets, calls []string
 	for _, x := range o.Rets {
 		var after []string
 		for _, a := range x.After {
 			after = append(after, fmt.Sprintf("(%s, %s)", cf.Z(a[0]), cf.Z(a[1])))
 		}
-		rets = append(rets, fmt.Sprintf("(%s, %s, %s, %s, %s)", cf.Z(x.RetP), cf.Z(x.Off), cf.Z(x.Err), cf.List(after), cf.List(x.Reports)))
+		rets = append(rets, fmt.Sprintf("(%s, %s, %s, %s, %s, %s)", cf.Z(x.RetP), cf.Z(x.Off), cf.Z(x.Err), cf.List(after), cf.List(x.Reports), coqZ2s(x.Checks)))
 	}
 	nmsgs := 0
 	for _, c := range s.Calls {
@@ -243,10 +285,7 @@ func syncCase(s sscript) (string, cf.Sidecar) {
 			calls = append(calls, cf.App("KSend", fmt.Sprint(c.Msgs[0].Topic), coqMsg(c.Msgs[0])))
 		}
 	}
-	for _, x := range o.NP {
-		np = append(np, fmt.Sprintf("(%s, %s)", cf.Z(x[0]), cf.Z(x[1])))
-	}
-	term := fmt.Sprintf("{| sc_def := %d; sc_over := %s; sc_exps := %s; sc_calls := %s; sc_rets := %s; sc_close := %s; sc_np := %s |}",
-		s.DefParts, coqOverrides(s.Overrides), coqExps(s.Exps), cf.List(calls), cf.List(rets), cf.List(o.Close), cf.List(np))
+	term := fmt.Sprintf("{| sc_def := %d; sc_over := %s; sc_exps := %s; sc_calls := %s; sc_rets := %s; sc_close := %s; sc_np := %s; sc_ctor := %s |}",
+		s.DefParts, coqOverrides(s.Overrides), coqExps(s.Exps), cf.List(calls), cf.List(rets), cf.List(o.Close), coqZ3s(o.NP), cf.ZList(o.Ctors))
 	return term, cf.Sidecar{Case: map[string]interface{}{"script": s, "observed": o}, Kind: "sync", Nontrivial: nmsgs > 0 && len(s.Exps) > 0, Monitor: monitorSync(s, o)}
 }
